@@ -132,6 +132,11 @@ def run(ctx):
                     body = bytearray(b'L%03d' % (k * 7 + pos % 7) + b'a' * (total - 4))
                     body[pos] = hb
                     body = bytes(body)
+                    if fld == 'path' and len(ms) % 3 == 1:
+                        # the same over-long component in front of a directory entry and of a link (their parents are created
+                        # and stat'ed on other code paths than those of files; a component over NAME_MAX makes stat fail)
+                        ms.append(arc.Member(H.dir_member(body + b'/sub/', level=2, perms=0o40755), b'', b'', kind='dir'))
+                        ms.append(arc.Member(H.symlink_member(body + b'/in/lnk', b'tgt', level=2), b'', b'', kind='symlink'))
                     if fld == 'name':
                         mm = H.simple_member(body, DATA, level=2)
                     elif fld == 'path':
